@@ -160,7 +160,7 @@ def _rerun_digests(args):
 # ------------------------------------------------------------------------------------------
 # minimisation
 # ------------------------------------------------------------------------------------------
-def minimise(chk, case, rule, known, budget_runs=400, budget_s=60.0):
+def minimise(chk, case, rule, known, budget_runs=2500, budget_s=75.0):
     """Greedy delta debugging: keep a smaller case while a violation with the same rule id that
     is not a known finding still occurs."""
     def fails(c):
@@ -181,14 +181,29 @@ def minimise(chk, case, rule, known, budget_runs=400, budget_s=60.0):
     while improved and runs < budget_runs and time.monotonic() - t0 < budget_s:
         improved = False
         for cand in chk.shrinks(case):
-            runs += 1
-            if fails(cand):
-                case = cand
-                improved = True
-                break
-            if runs >= budget_runs or time.monotonic() - t0 > budget_s:
+            # a smaller program consumes the schedule PRNG differently, so a race that needs one particular
+            # interleaving usually disappears with the original schedule seed: also try a few derived seeds
+            # (the accepted candidate carries the seed it failed with, so the replay stays one exact execution)
+            for var in _schedule_variants(cand):
+                runs += 1
+                if fails(var):
+                    case = var
+                    improved = True
+                    break
+                if runs >= budget_runs or time.monotonic() - t0 > budget_s:
+                    break
+            if improved or runs >= budget_runs or time.monotonic() - t0 > budget_s:
                 break
     return case, runs
+
+
+def _schedule_variants(case, k=6):
+    yield case
+    if isinstance(case.get("sched_seed"), int):
+        for i in range(k):
+            c = dict(case)
+            c["sched_seed"] = random.Random(f"{case['sched_seed']}:{i}").getrandbits(32)
+            yield c
 
 
 # ------------------------------------------------------------------------------------------
